@@ -588,7 +588,7 @@ class Ctx:
             if fid and self.is_known(fid):
                 self.known_finding(fid)
                 continue
-            if shrink and len(self.violations) < 5:
+            if shrink and len(self.violations) < 5 and not os.environ.get('VERIF_NO_SHRINK'):      # (debugging aid: see the unshrunk case)
                 try:
                     r = shrink(c, e, g)
                     if r is not None:
